@@ -8,11 +8,11 @@ Lemma in_bools b : In b bools.
 Proof. destruct b; cbn; auto. Qed.
 
 (* the finite table decides every take range: ranges enter only through "has an offset" / "has a limit" *)
-Theorem take_table_sound {F} (uf : F -> bool) fs allow :
-  take_table uf fs allow = true ->
+Theorem take_table_sound {F} (uf bare : F -> bool) fs allow :
+  take_table uf bare fs allow = true ->
   forall d f, In (d, f) fs -> forall ordered s e,
-    (allow && take_known_b d (uf f) ordered (has_off s) (has_lim e)) = false ->
-    forallb (supported d) (take_uses (uf f) ordered s e) = true.
+    (allow && take_known_b (uf f) ordered (has_off s) (has_lim e)) = false ->
+    forallb (supported d) (take_uses (uf f) (bare f) ordered s e) = true.
 Proof.
   unfold take_table. intros H d f Hin ordered s e Hk.
   rewrite forallb_forall in H. specialize (H _ Hin). cbn [fst snd] in H.
@@ -22,6 +22,10 @@ Proof.
   rewrite Hk in H. rewrite orb_false_r in H. exact H.
 Qed.
 
+(* an operator without a usable implementation -- `null` body or none at all -- is a compile error of the model *)
 Theorem unsupported_is_error ops natives d op :
-  existsb (leqb op) natives = false -> resolve_op ops d op = Some true -> op_outcome ops natives d op = CompileError.
-Proof. intros Hn Hr. unfold op_outcome. now rewrite Hn, Hr. Qed.
+  existsb (leqb op) natives = false -> resolve_op ops d op <> Some false -> op_outcome ops natives d op = CompileError.
+Proof.
+  intros Hn Hr. unfold op_outcome. rewrite Hn.
+  destruct (resolve_op ops d op) as [[|]|]; try reflexivity. congruence.
+Qed.
